@@ -14,7 +14,7 @@ def NOT_REPRODUCED(msg=''):
 
 
 import math, cmath
-a = Arc((-1.2-0.8j), (2+1j), 180.0, False, True, (1.2099146453199594+0.7962578965134783j))
+a = Arc((-0.8+1.2j), (2+1j), 90.0, True, False, (0.7962578965134783-1.2099146453199594j))
 st, en, rot, fa, fs = a.start, a.end, a.rotation, a.large_arc, a.sweep
 rx0, ry0 = (2.0, 1.0)
 # independent F.6.5 / F.6.6
